@@ -376,7 +376,7 @@ def run_driver(ctx, focus):
                     if cfg["doe"] and t.flag(0.6, "other_samples"):
                         # a continued DOE over other points
                         if "samples" in kw:
-                            kw["samples"] = kw["samples"] + 0.125 * e
+                            kw["samples"] = kw["samples"] * 0.9 + 0.05 * e  # other points, still inside the bounds
                         elif "seed" in kw:
                             kw["seed"] = kw["seed"] + e
                         elif "random_state" in kw:
